@@ -224,6 +224,10 @@ def steps_for(case, pick):
         b2 = {"op": "build", "dst": "b", "layout": instantiate(case["aux"], pick), "want": ["type", "valid", "digest"]}
         op = {"op": "concat0", "src": "b", "others": ["a"], "dst": "r", "want": ["json", "type", "valid"]}
         return [build, b2, op, {"op": "digest", "src": "a"}]
+    elif act == "setfield":
+        b2 = {"op": "build", "dst": "b", "layout": instantiate(case["aux"], pick), "want": ["type", "valid", "digest"]}
+        op = {"op": "setitem_field", "src": "b", "where": a["key"], "what": "a", "dst": "r", "want": ["json", "type", "valid"]}
+        return [build, b2, op, {"op": "digest", "src": "a"}]
     elif act == "samevalue":
         o = a["o"]
         if o == "simplify":
@@ -285,11 +289,11 @@ def judge(case, res):
         if not values_equal(got, vjson_to_py(case["exp"]["v"])):
             return "to_list differs: library %s" % b["json"]
         return None
-    opi = 2 if act == "concat" else 1
+    opi = 2 if act in ("concat", "setfield") else 1
     if len(res) <= opi:
         return "missing op result"
     r = res[opi]
-    if act == "concat":
+    if act in ("concat", "setfield"):
         b2 = res[1]
         if b2.get("ok") != 1 or b2.get("valid", "") != "":
             return "aux build failed/invalid: %r" % (b2.get("msg") or b2.get("valid"))
@@ -496,7 +500,7 @@ def judge_closure(case, res):
         return "build failed: %s" % (b.get("msg") or b.get("harness"))
     if b.get("valid", "") != "":
         return "valid layout reported invalid: %r" % b.get("valid")
-    opi = 2 if act == "concat" else 1
+    opi = 2 if act in ("concat", "setfield") else 1
     if len(res) <= opi:
         return None
     r = res[opi]
